@@ -133,7 +133,8 @@ type Station struct {
 	pol    map[string]string
 	expect map[string][]byte // for inbound MIDs: the bytes the peer queued (content identity projection)
 
-	deferred map[string]bool
+	deferred  map[string]bool
+	askedOnce map[string]bool // "once=" policy: MIDs that were already deferred once
 	// fault: fail the n-th ProcessInbound call of a session (1-based), 0 = never
 	FailStoreAt int
 	nStore      int
@@ -249,11 +250,34 @@ func (s *Station) SetDeferred(mid string) {
 
 func (s *Station) answer(p fbb.Proposal) fbb.ProposalAnswer {
 	if s.Dir != nil {
+		s.mu.Lock()
+		once := s.pol[p.MID()] == "once="
+		if s.askedOnce == nil {
+			s.askedOnce = map[string]bool{}
+		}
+		first := once && !s.askedOnce[p.MID()]
+		s.askedOnce[p.MID()] = true
+		s.mu.Unlock()
+		if first {
+			return fbb.Defer
+		}
 		return s.Dir.GetInboundAnswer(p)
 	}
 	s.mu.Lock()
 	defer s.mu.Unlock()
 	switch s.pol[p.MID()] {
+	case "once=": // defer the first time the MID is ever proposed, then behave like "dedup"
+		if s.askedOnce == nil {
+			s.askedOnce = map[string]bool{}
+		}
+		if !s.askedOnce[p.MID()] {
+			s.askedOnce[p.MID()] = true
+			return fbb.Defer
+		}
+		if s.inbox[p.MID()] > 0 {
+			return fbb.Reject
+		}
+		return fbb.Accept
 	case "-":
 		return fbb.Reject
 	case "=":
